@@ -38,6 +38,8 @@ def gen_text_delim(rng, fs):
 
 
 def gen_text(rng, fs):
+    if rng.random() < 0.08:
+        return ""            # an exhausted buffer / empty line: every field reads as missing, whatever the shared fields held
     parts = []
     for fd in fs:
         if fd["k"] == "date":
